@@ -115,7 +115,7 @@ def compare(d1, d2, version, ordered=False, units="LPS"):
         if k == "bulk_coeff":
             f = 1.0 / 86400.0 if ro.get("bulk_order") == 1 else 1.0
         elif ro.get("wall_order") == 0:
-            f = 1e-6 * (0.092903 if us else 1.0) / 86400.0
+            f = 1e-6 / (0.3048 ** 2 if us else 1.0) / 86400.0
         else:
             f = (0.3048 if us else 1.0) / 86400.0
         return 5.1e-5 * f
